@@ -1,7 +1,7 @@
 /-
 T2 soundness, index part: from `IndexOk d` (= `checkIndex d = true`) to the invariants of the
-C09 / C14 theorems on `colOf d`: `IdxInv`, `Univ`, `Abs`, `NoLeak`, and (dumps without a
-multipart table) the abstract `SlotInv`, hence `Good`.
+C09 / C14 theorems on `colOf d`: `IdxInv`, `Univ`, `Abs`, `NoLeak`, and the abstract `SlotInv`
+(chains of the multipart table included), hence `Good`.
 -/
 import Pdb.Proofs.DumpCheckIndex
 
@@ -141,7 +141,7 @@ theorem noLeak_of {Uk : Key → Prop} {s : Col} {m : Key → Option Val} (hI : I
 theorem IndexOk.noLeak (ok : IndexOk d) : NoLeak (U d) (colOf d) (absOf d) :=
   noLeak_of ok.idxInv ok.abs
 
-/-! ## the abstract `SlotInv` (dumps without a multipart table) -/
+/-! ## the abstract `SlotInv` (chains included) -/
 
 theorem mem_headsOfTable (td : TableDump) (h : Head) (hh : h ∈ headsOfTable td) :
     h.tier = td.tier ∧ h.addr = Address.new h.off td.tier ∧ 1 ≤ h.off ∧ h.off < td.filled := by
@@ -159,29 +159,37 @@ theorem mem_headsOf (d : ColumnDump) (h : Head) (hh : h ∈ headsOf d) :
 structure AbsSlots (d : ColumnDump) : Prop where
   tier : ∀ td ∈ d.tables, ((colOf d).tier td.tier).filled = td.filled ∧
     ((colOf d).tier td.tier).free = freeOf td ∧ td.filled ≤ 2 ^ 56 ∧
-    ∀ off, 1 ≤ off → off < td.filled → off ∈ ((colOf d).tier td.tier).free ∨
-      ((colOf d).tailAt (Address.new off td.tier)).isSome = true
-  head : ∀ h ∈ headsOf d, h.off ∉ ((colOf d).tier h.tier).free
+    (((colOf d).tier td.tier).free ++ ownedOf ((colOf d).tier td.tier).chains).Nodup ∧
+    (∀ off ∈ ((colOf d).tier td.tier).free ++ ownedOf ((colOf d).tier td.tier).chains,
+      1 ≤ off ∧ off < td.filled ∧ (colOf d).tailAt (Address.new off td.tier) = none) ∧
+    (∀ off, 1 ≤ off → off < td.filled →
+      off ∈ ((colOf d).tier td.tier).free ++ ownedOf ((colOf d).tier td.tier).chains ∨
+      ((colOf d).tailAt (Address.new off td.tier)).isSome = true) ∧
+    (((colOf d).tier td.tier).chains.map (·.1)).Nodup ∧
+    (∀ h ∈ ((colOf d).tier td.tier).chains.map (·.1), 1 ≤ h ∧ h < td.filled ∧
+      ((colOf d).tailAt (Address.new h td.tier)).isSome = true)
 
 theorem absSlotsOk_spec (d : ColumnDump) (h : absSlotsOk d (colOf d) = true) : AbsSlots d := by
   unfold absSlotsOk at h
-  rw [Bool.and_eq_true, List.all_eq_true, List.all_eq_true] at h
+  rw [List.all_eq_true] at h
   constructor
-  · intro td htd
-    have := h.1 td htd
-    simp only [Bool.and_eq_true, decide_eq_true_eq, List.all_eq_true, List.mem_range,
-      Bool.or_eq_true] at this
-    refine ⟨this.1.1.1, this.1.1.2, this.1.2, fun off h1 h2 => ?_⟩
-    rcases this.2 off h2 with (h3 | h3) | h3
+  intro td htd
+  have := h td htd
+  simp only [Bool.and_eq_true, decide_eq_true_eq, List.all_eq_true, List.mem_range,
+    Bool.or_eq_true, Option.isNone_iff_eq_none] at this
+  obtain ⟨⟨⟨⟨⟨⟨⟨a1, a2⟩, a3⟩, a4⟩, a5⟩, a6⟩, a7⟩, a8⟩ := this
+  refine ⟨a1, a2, a3, a4, fun off ho => ?_, fun off h1 h2 => ?_, a7, fun hd hm => ?_⟩
+  · obtain ⟨⟨b1, b2⟩, b3⟩ := a5 off ho
+    exact ⟨b1, b2, b3⟩
+  · rcases a6 off h2 with (h3 | h3) | h3
     · omega
     · exact Or.inl h3
     · exact Or.inr h3
-  · intro x hx
-    exact of_decide_eq_true (h.2 x hx)
+  · obtain ⟨⟨b1, b2⟩, b3⟩ := a8 hd hm
+    exact ⟨b1, b2, b3⟩
 
-theorem IndexOk.slotInv (ok : IndexOk d) (hm : d.tables.any (·.multipart) = false) :
-    Index.SlotInv (colOf d) := by
-  have A := absSlotsOk_spec d (ok.absSlots hm)
+theorem IndexOk.slotInv (ok : IndexOk d) : Index.SlotInv (colOf d) := by
+  have A := absSlotsOk_spec d ok.absSlots
   -- every live address decodes to (table, offset)
   have hdec : ∀ a tl, (colOf d).tailAt a = some tl → ∃ td ∈ d.tables, ∃ x ∈ headsOf d,
       x.tier = td.tier ∧ a = Address.new x.off td.tier ∧ 1 ≤ x.off ∧ x.off < td.filled := by
@@ -200,57 +208,65 @@ theorem IndexOk.slotInv (ok : IndexOk d) (hm : d.tables.any (·.multipart) = fal
       exact Or.inr ⟨td, htd, h1⟩
   have hinit : ∀ t, (colOf d).tiers.get t = none → (colOf d).tier t = Tier.init := by
     intro t h; unfold Col.tier; rw [h]; rfl
-  constructor
+  refine ⟨fun tier => ⟨?_, ?_, ?_, ?_, ?_, ?_, ?_⟩, ?_⟩
   · -- fresh
-    intro tier off ht ho hfree
-    cases hta : (colOf d).tailAt (Address.new off tier) with
-    | none => rfl
-    | some tl =>
-      exfalso
-      obtain ⟨td, htd, x, hx, hx1, hx2, hx3, hx4⟩ := hdec _ tl hta
-      have hA := A.tier td htd
-      have hinj := address_new_inj off tier x.off td.tier ho ht (by omega) (ok.tiers.1 td htd) hx2
-      rcases hfree with hf | hf
-      · apply A.head x hx
-        rw [hx1, ← hinj.2, ← hinj.1]; exact hf
-      · rw [hinj.2, hA.1, hinj.1] at hf
+    intro off ht ho hfree
+    rcases hfree with hf | hf
+    · rcases htier tier with h | ⟨td, htd, rfl⟩
+      · rw [hinit tier h] at hf; simp [Tier.init, ownedOf] at hf
+      · exact ((A.tier td htd).2.2.2.2.1 off hf).2.2
+    · cases hta : (colOf d).tailAt (Address.new off tier) with
+      | none => rfl
+      | some tl =>
+        exfalso
+        obtain ⟨td, htd, x, hx, hx1, hx2, hx3, hx4⟩ := hdec _ tl hta
+        have hA := A.tier td htd
+        have hinj := address_new_inj off tier x.off td.tier ho ht (by omega) (ok.tiers.1 td htd) hx2
+        rw [hinj.2, hA.1, hinj.1] at hf
         omega
-  · -- addr
-    intro a tl h
-    obtain ⟨td, htd, x, _, _, hx2, hx3, hx4⟩ := hdec a tl h
-    exact ⟨td.tier, x.off, ok.tiers.1 td htd, hx3, by rw [(A.tier td htd).1]; exact hx4, hx2⟩
   · -- nodup
-    intro t
-    rcases htier t with h | ⟨td, htd, rfl⟩
-    · rw [hinit t h]; exact List.nodup_nil
-    · rw [(A.tier td htd).2.1]
-      exact (List.nodup_append.1 (ok.tables td htd).inv.nodup).1
+    rcases htier tier with h | ⟨td, htd, rfl⟩
+    · rw [hinit tier h]; simp [Tier.init, ownedOf]
+    · exact (A.tier td htd).2.2.2.1
   · -- range
-    intro t off hoff
-    rcases htier t with h | ⟨td, htd, rfl⟩
-    · rw [hinit t h] at hoff; cases hoff
-    · rw [(A.tier td htd).2.1] at hoff
-      rw [(A.tier td htd).1]
-      exact (ok.tables td htd).inv.range off (List.mem_append_left _ hoff)
+    intro off hoff
+    rcases htier tier with h | ⟨td, htd, rfl⟩
+    · rw [hinit tier h] at hoff; simp [Tier.init, ownedOf] at hoff
+    · rw [(A.tier td htd).1]
+      have := (A.tier td htd).2.2.2.2.1 off hoff
+      exact ⟨this.1, this.2.1⟩
   · -- filled
-    intro t _
-    rcases htier t with h | ⟨td, htd, rfl⟩
-    · rw [hinit t h]; exact ⟨Nat.le_refl 1, by decide⟩
+    intro _
+    rcases htier tier with h | ⟨td, htd, rfl⟩
+    · rw [hinit tier h]; exact ⟨Nat.le_refl 1, by decide⟩
     · rw [(A.tier td htd).1]
       have := (ok.tables td htd).filled_pos
       exact ⟨by omega, (A.tier td htd).2.2.1⟩
   · -- cover
-    intro t off _ _ h1 h2
-    rcases htier t with h | ⟨td, htd, rfl⟩
-    · rw [hinit t h] at h2
+    intro off _ _ h1 h2
+    rcases htier tier with h | ⟨td, htd, rfl⟩
+    · rw [hinit tier h] at h2
       have : Tier.init.filled = 1 := rfl
       omega
     · rw [(A.tier td htd).1] at h2
-      exact (A.tier td htd).2.2.2 off h1 h2
+      exact (A.tier td htd).2.2.2.2.2.1 off h1 h2
+  · -- heads
+    rcases htier tier with h | ⟨td, htd, rfl⟩
+    · rw [hinit tier h]; simp [Tier.init]
+    · exact (A.tier td htd).2.2.2.2.2.2.1
+  · -- headLive
+    intro hd _ hm
+    rcases htier tier with h | ⟨td, htd, rfl⟩
+    · rw [hinit tier h] at hm; simp [Tier.init] at hm
+    · rw [(A.tier td htd).1]
+      exact (A.tier td htd).2.2.2.2.2.2.2 hd hm
+  · -- addr
+    intro a tl h
+    obtain ⟨td, htd, x, _, _, hx2, hx3, hx4⟩ := hdec a tl h
+    exact ⟨td.tier, x.off, ok.tiers.1 td htd, hx3, by rw [(A.tier td htd).1]; exact hx4, hx2⟩
 
-/-- dumps without a multipart table satisfy the whole hypothesis `Good` of the C09/C14 theorems -/
-theorem IndexOk.good (ok : IndexOk d) (hm : d.tables.any (·.multipart) = false) :
-    Good (U d) (colOf d) (absOf d) :=
-  ⟨ok.idxInv, ok.slotInv hm, ok.abs⟩
+/-- every accepted dump satisfies the whole hypothesis `Good` of the C09/C14 theorems -/
+theorem IndexOk.good (ok : IndexOk d) : Good (U d) (colOf d) (absOf d) :=
+  ⟨ok.idxInv, ok.slotInv, ok.abs⟩
 
 end Pdb.DumpCheck
